@@ -61,6 +61,15 @@ def mode_dask(p):
         a, b = WCCN().fit(X, y), WCCN().fit(da.from_array(X, chunks=(5, 3)), y)
         if not close(np.asarray(a.weights), np.asarray(b.weights), 1e-8):
             return {"what": "WCCN on a Dask array differs from the NumPy result"}
+        # the classes stored interleaved (two recording sessions: A A B B C C A A B B C C) and fully shuffled
+        X2 = rs.normal(size=(18, 3)) + np.repeat(rs.normal(size=(3, 3)) * 3, 6, axis=0)
+        y2 = np.repeat([7, -2, 40], 6)
+        for order in (np.array([0, 1, 6, 7, 12, 13, 2, 3, 8, 9, 14, 15, 4, 5, 10, 11, 16, 17]), rs.permutation(18)):
+            ref = np.asarray(WCCN().fit(X2, y2).weights)
+            for chunks in ((18, 3), (7, 3)):
+                got = np.asarray(WCCN().fit(da.from_array(X2[order], chunks=chunks), y2[order]).weights)
+                if not close(got, ref, 1e-8):
+                    return {"input": {"labels": y2[order].tolist(), "chunks": list(chunks)}, "what": "WCCN on a Dask array depends on the storage order of the labelled samples"}
         a, b = Whitening().fit(X), Whitening().fit(da.from_array(X, chunks=(5, 3)))
         if not close(np.asarray(a.weights), np.asarray(b.weights), 1e-8) or not close(np.asarray(a.input_subtract), np.asarray(b.input_subtract), 1e-10):
             return {"what": "whitening on a Dask array differs from the NumPy result"}
